@@ -307,7 +307,13 @@ def run(facts, rep, parts=('Q1', 'Q2', 'Q3', 'Q4', 'Q5', 'Q6')):
         elif ok:
             rep.ok('E20.Q3-inverse', inst, 'Some(from(inv(norm z)) * conj z) / None')
         else:
-            rep.violation('E20.Q3-inverse', inst, 'inv has the shapes %s' % sorted(shapes), where=bodies['inv'].where())
+            # a mismatch is a statement about inv only if its shapes stay within the vocabulary norm / conj / inv / from / mul
+            voc = all(re.match(r'^(Option::(Some\{0: |None\{\})|mul|from|inv|norm|conj|neg|arg1|Some|[0-9]|[&(){}., :])*$', a) for a, _ in shapes) and \
+                all(all(re.match(r'^(discr|inv|norm|is_unit|arg1|[&(), ])*$', t) for t, _ in b) for _, b in shapes)
+            if voc and shapes:
+                rep.violation('E20.Q3-inverse', inst, 'inv has the shapes %s' % sorted(shapes), where=bodies['inv'].where())
+            else:
+                raise Unrec('inv has the shapes %s' % sorted(shapes)[:2])
         # Q4
         for key, d, basis in ((('dr1', -1, 'gauss'), ('dr3', -3, 'eisenstein')) if 'Q4' in parts else ()):
             b = bodies[key]
@@ -376,8 +382,10 @@ def run(facts, rep, parts=('Q1', 'Q2', 'Q3', 'Q4', 'Q5', 'Q6')):
             n_inst += 1
             if rets == {'sub(arg1, mul(arg2, div(arg1, arg2)))'}:
                 rep.ok('E20.Q5-remainder', inst, 'a - b * (a / b)')
-            else:
+            elif rets and all(re.match(r'^(sub|mul|div|add|neg|arg[12]|[(), ])*$', r_) for r_ in rets):
                 rep.violation('E20.Q5-remainder', inst, 'rem returns %s' % sorted(rets), where=b.where())
+            else:
+                raise Unrec('rem returns %s' % sorted(rets)[:2])
     except Unrec as e:
         rep.indet('E20: QuadInt arithmetic outside the recognised fragment: %s' % e)
         return
